@@ -782,8 +782,9 @@ class Fxp():
         if _val_python and val.dtype.kind == 'u' and val.size > 0 and int(np.max(val)) >= 2**63:
             # python integers from 2^63 on become uint64: they stay python integers (unsigned raw codes are re-interpreted as signed ones later)
             val = val.astype(object)
-        if _val_list is not None and val.dtype.kind == 'f' and val.size > 0 and np.max(np.abs(val)) >= 2**63:
-            # python integers beyond 64 bits mixed with shorter ones: numpy chooses float64, the integers are kept instead
+        if _val_list is not None and val.dtype.kind == 'f' and val.size > 0 and np.max(np.abs(val)) >= 2**53:
+            # python integers beyond 64 bits mixed with shorter ones, numpy unsigned integers mixed with signed ones: numpy chooses float64
+            # (exact up to 2^53 only), the integers are kept instead
             _val_obj = np.array(_val_list, dtype=object)
             if all(isinstance(v, (int, np.integer)) for v in _val_obj.ravel()):
                 val = _val_obj
